@@ -494,6 +494,17 @@ def kdf_table(binp, cases):
                 need.append((pw, salt))
     if not need:
         return []
+    # the values come from the RFC 7914 reference (OpenSSL through hashlib; C18 validates it on the RFC vectors and against
+    # Gallina) rather than from the implementation under test: a change of the key derivation applied to BOTH directions
+    # then shows as a model-vs-implementation difference.  Fallback: the implementation's own scrypt.
+    try:
+        import hashlib
+        from concurrent.futures import ThreadPoolExecutor as _TPE
+        with _TPE(max_workers=max(1, min(8, NPROC))) as ex:
+            keys = list(ex.map(lambda ps: hashlib.scrypt(ps[0], salt=ps[1], n=32768, r=8, p=1, dklen=32, maxmem=1 << 27), need))
+        return [(pw, salt, k) for (pw, salt), k in zip(need, keys)]
+    except Exception:
+        pass
     lines = ["%d scrypt %s %s 32768 8 1 32" % (i, hexs(pw), hexs(salt)) for i, (pw, salt) in enumerate(need)]
     res, _ = run_driver(binp, lines)
     tab = []
